@@ -275,7 +275,7 @@ package types
 //@   props C05
 //@   requires mux != nil && r != nil && r.URL != nil
 //@   modifies nothing
-//@   ensures [C05.mux.cleaned] calls((*ServeMux).handler) == 1 && arg((*ServeMux).handler, 1, path) == uf_s_CleanPath(r.URL.Path)
+//@   ensures [C05.mux.cleaned] calls((*ServeMux).handler) == 1 && calls(utils.CleanPath) == 1 && arg(utils.CleanPath, 1, p) == r.URL.Path && arg((*ServeMux).handler, 1, path) == ret(utils.CleanPath, 1)
 //@   ensures [C05.mux.result]  h == ret((*ServeMux).handler, 1, 0) && pattern == ret((*ServeMux).handler, 1, 1)
 //@ func (*ServeMux).handler(host, path)
 //@   props C05
